@@ -44,8 +44,12 @@ Inductive marker :=
 | MkNormal (sid : style_id)            (* content normal: RenderMarker(list-style-type, list-item) *)
 | MkContent (items : list citem).      (* content: <list> on ::marker *)
 
-(* a ::before / ::after that generates a box (beforeAfterToBox does not return early) *)
-Inductive pseudo := Pseudo (props : cprops) (content : list citem).
+(* a ::before / ::after that generates a box (beforeAfterToBox does not return early).
+   A pseudo-element with display: list-item gets a ::marker of its own
+   (build.go:386-391), generated AFTER the counter properties of the
+   pseudo-element were applied (:383): `mk` is what that marker produces
+   (markerToBox reads the ::marker style of the originating element). *)
+Inductive pseudo := Pseudo (props : cprops) (mk : marker) (content : list citem).
 
 Inductive elem :=
 | Elem (skip : bool)                   (* display none: elementToBox returns before touching the state *)
@@ -201,10 +205,11 @@ Definition pseudo_to_box (c : table) (mkout : str -> oitem) (st : state) (p : op
   : res (state * list oitem) :=
   match p with
   | None => Ok (st, [])
-  | Some (Pseudo props content) =>
+  | Some (Pseudo props mk content) =>
       let* st' := update_counters st props in                   (* :383 *)
+      let* m := (if cp_list_item props then marker_text c (st_values st') mk else Ok []) in   (* :386-391 *)
       let* s := content_text c (st_values st') content in       (* :392 *)
-      Ok (st', [mkout s])
+      Ok (st', m ++ [mkout s])
   end.
 
 (* scope pop, build.go:307-315 *)
